@@ -224,6 +224,14 @@ class FloatLiteral(Literal[float]):
 
     __slots__ = ()
 
+    def __str__(self) -> str:
+        s = repr(self.value).lower()
+        if "e" in s and "." not in s:
+            # `1e+16` would be read back as an integer literal.
+            mantissa, exponent = s.split("e")
+            s = f"{mantissa}.0e{exponent}"
+        return s
+
 
 class RegexLiteral(Literal[Pattern[str]]):
     """A regex literal."""
